@@ -13,7 +13,7 @@ EXPLANATION = (
     "errors, sqlite3 -> sqlite3), with the prefix/split arithmetic consistent; the server stores the traceback before the "
     "first serialisation, ors FLAGS_EXCEPTION in before the reply is built, and replies under the documented condition "
     "(truth table shared with C05-R3); no handler on the dispatch path swallows or replaces an exception of user code (methods, "
-    "property accessors, stream iterators); the client raises the decoded object exactly under the exception flag; the batch "
+    "property accessors, stream iterators); every failure of handleRequest ends the connection (no hang); the client raises the decoded object exactly under the exception flag; the batch "
     "wrapper is written and read as the same class and re-raises its payload. Not decided: equality of args/attributes after "
     "the trip (third-party codecs), all classes x argument shapes."
 )
